@@ -4,32 +4,32 @@ COMMON_TRUST = [
     "correspondence harness (harness/, Rust) and the Lean driver's line protocol",
     "rustc dev-profile semantics of integer overflow and indexing",
 ]
-CODEC_RULE = "every message type x decoding parameter (Prio3 Count/Sum/Histogram/SumVec with 2-5 aggregators, Poplar1 with several bit lengths incl. 0, Prio2, ping-pong, primitives): honest encodings from real protocol runs, truncations, extensions, single-byte mutations, every alphabet value in first/last byte, all strings of length <= 2-3 over {00,01,7f,80,fe,ff}, header extremes (level 0xFFFF, counts 2^32-1, unknown tags), random strings; non-trivial = every case (each is a decode of a distinct byte string);"
+CODEC_RULE = "every message type x decoding parameter (Prio3 Count/Sum/Histogram/SumVec with 2-5 aggregators, Poplar1 with several bit lengths incl. 0, Prio2, ping-pong, primitives): honest encodings from real protocol runs, truncations, extensions, single-byte mutations, every alphabet value in first/last byte, all strings of length <= 2-3 over {00,01,7f,80,fe,ff}, header extremes (level 0xFFFF, counts 2^32-1, unknown tags), random strings; value-level round trips of Prio3 public share, input shares, verifier states / shares / messages (decode(encode(x)) == x, and verify_next on the decoded state gives the same result) for 1, 2 and 3 proofs; non-trivial = every case (each is a decode of a distinct byte string);"
 POP = "Poplar1 over a recording XOF and the IDPF PRG recorder (the model recomputes every step from the two tables): "
 PROPS = {
     "C15": {
-        "modules": ["PrioProofs.Props.C15"],
+        "modules": ["PrioProofs.Props.C15", "PrioProofs.Props.C15Laws"],
         "rule": "every layer through the verif-hooks wrappers on random and planted tapes (extreme first words): uniform_below for 19 bounds (1, word boundaries 2^32 +-1, 2^64 +-1, 2^128, 3^50, a 142-bit bound), Bernoulli and Bernoulli-exp1 for 14 fractions incl. unreduced and 64-bit denominators, Bernoulli-exp and geometric for 9 parameters incl. 0 and >1, Laplace for 9 scales incl. 0 and 2^40/3, Gaussian for 8 sigmas incl. 0 and 1000/7; value and bytes consumed compared; add_noise for SumVec (both fields), Histogram, L1BoundSum with 5 epsilons: output vector and bytes consumed; exhaustive: every raw draw for bounds 1..130 (thorough 600) and every Bernoulli n/d with d <= 24 (thorough 64); frequency tests with 120k (thorough 1M) samples; non-trivial = all;",
         "trusted": COMMON_TRUST + ["rand's Fill impl for [u32] and num-bigint/num-rational arithmetic (observed through the correspondence)"],
         "assumptions": ["the random source delivers independent uniform bytes (the property is conditional on it)", "Laplace / Gaussian normalisation: oracle only"],
     },
     "C03": {
-        "modules": ["PrioProofs.Props.C03"],
-        "rule": "%sbit lengths {1,2,3,5,8,16,33} (thorough 12 lengths up to 130): batches with repeated inputs, admissible sequences of 1-4 levels incl. the leaf level, sorted candidate sets mixing prefixes of the inputs, siblings and random strings; every shard, verify_init (both aggregators), both verifier_shares_to_message rounds and both verify_next rounds as a correspondence case; unshard vs plain counts; heavy-hitters loop on 4/8/12-bit inputs; thorough: a 21850-bit tree at levels 21845-21848; non-trivial = all;" % POP,
+        "modules": ["PrioProofs.Props.C03", "PrioProofs.Props.C03E2E"],
+        "rule": "%sbit lengths {1,2,3,5,8,16,33} (thorough 12 lengths up to 130): batches with repeated inputs, admissible sequences of 1-4 levels incl. the leaf level, sorted candidate sets mixing prefixes of the inputs, siblings and random strings; every shard, verify_init (both aggregators), both verifier_shares_to_message rounds and both verify_next rounds as a correspondence case; unshard vs plain counts; heavy-hitters loop on 4/8/12-bit inputs; thorough: a 21850-bit tree at levels 21845-21848; every second candidate prefix is cut out of a longer packed bit vector (stored at bit offset 1 behind a zero, or at a larger offset); dense candidate sets (every prefix of the level) for bit lengths 3 and 4 (thorough 2-5); non-trivial = all;" % POP,
         "trusted": COMMON_TRUST + ["TurboSHAKE128 and the fixed-key AES PRG are parameters of the model (recorded tables in the correspondence)"],
         "assumptions": ["bit lengths above 130 are exercised by the oracle only (21850 bits, thorough)"],
     },
     "C04": {
-        "modules": ["PrioProofs.Props.C04"],
-        "rule": "%sbit lengths {1,2,3,5,8} (thorough up to 33), levels first / middle / last, candidates = on-path prefix, its sibling and random strings; per level 12 public-share alterations (data value, authenticator, seed bit, control bit of the correction word at the first, queried and last level), 5-7 alterations of each input share, 6 round-one share elements, 3 message elements, both round-two shares, a cancelling pair; every step as a correspondence case; non-trivial = all;" % POP,
+        "modules": ["PrioProofs.Props.C04", "PrioProofs.Props.C04Counting"],
+        "rule": "%sbit lengths {1,2,3,5,8} (thorough up to 33), levels first / middle / last, candidates = on-path prefix, its sibling and random strings; per level 12 public-share alterations (data value, authenticator, seed bit, control bit of the correction word at the first, queried and last level), 5-7 alterations of each input share, 6 round-one share elements, 3 message elements, both round-two shares, a cancelling pair; every step as a correspondence case; malicious clients: IDPF programmed by hand with data values 2, p-1, 0 and random at every level and an arbitrary authenticator, input shares with hand-made correlated randomness (all zero / random / zero A with random B), all prefixes of the level as candidates for levels < 3, two verification keys each; non-trivial = all;" % POP,
         "trusted": COMMON_TRUST + ["TurboSHAKE128 and the fixed-key AES PRG are parameters of the model"],
         "assumptions": ["the negligible-probability clause is not expressed; the oracle samples it with random keys"],
     },
     "C19": {
-        "modules": ["PrioProofs.Props.C19"],
+        "modules": ["PrioProofs.Props.C19", "PrioProofs.Props.C19Linear"],
         "rule": "input lengths {1,2,3,4,7,8,15,16,33,100} (thorough 15 lengths up to 1000): all-zero, all-one and random 0/1 vectors, each also with one entry replaced by 2, p-1, 3 or a random value; per report: reconstructed client proof vs the model's construct_proof, leader share, both verification messages at the derived point and at 0, 1, two interpolation nodes and a random point, the decision, the evaluation point from the HMAC/AES stream, streams with planted out-of-range / node / identity draws, alterations (+1, -1, random) of the first/last data element, f0, g0, h0, first/last packed element (thorough: 6 more positions), wrong-length shares; non-trivial = all;",
         "trusted": COMMON_TRUST + ["HMAC-SHA256 and AES-128-CTR (hmac, sha2, aes, ctr crates): the key stream is a parameter of the model and is handed to it by the harness"],
-        "assumptions": ["soundness up to 2n/p is sampled by the oracle, not expressed as a probability", "NTT = DFT (C10, stated) is what completeness would rest on"],
+        "assumptions": ["soundness up to 2n/p is sampled by the oracle, not expressed as a probability", "the theorems take a field context satisfying CtxOk (root chain, half, canonical ofNat, 2 != 0); that the deployed contexts satisfy it is C10's table_roots / C09's constants"],
     },
     "C14": {
         "modules": ["PrioProofs.Props.C14"],
@@ -38,37 +38,37 @@ PROPS = {
         "assumptions": ["the schedule actually taken by rayon is not observable; the theorem quantifies over all of them"],
     },
     "C16": {
-        "modules": ["PrioProofs.Props.C16"],
-        "rule": "constructors of Sum, Average, Histogram, MultihotCountVec, SumVec, L1BoundSum over Field64 and Field128 on the argument lattice {0,1,2,3,8,1000,2^32-2,2^32-1,2^32,2^63-1,2^63,usize::MAX-1,usize::MAX} (thorough: 26 values incl. random ones; full cube for the 3-parameter constructors) x integer bounds {0,1,2,3,255,256,p-2,p-1,p,p+1,MAX}; accepted small instances must prove and verify their extreme measurements; encode_measurement on in-range, boundary, out-of-range and wrong-length measurements; Prio3::new on (aggregators, proofs) incl. 0, 254, 255; Prio2::new on 24 (thorough 64) lengths up to usize::MAX; Prio3 verify_init / verifier_shares_to_message / verify_next on hand-built leader shares (measurement or proofs empty, short, long, one proof of many), missing or unexpected blinds and parts, shares, states and messages of an instance with the opposite joint-randomness use, aggregator ids up to usize::MAX, share counts 0..512+n incl. 256+n; Prio2, Poplar1 (zero bits, wrong heights, levels beyond the tree, depth 40000) and DP constructors by oracle; non-trivial = all;",
-        "trusted": COMMON_TRUST + ["XOF expansion terminating and FLP query/decide not panicking are hypotheses of the Prio3 no-panic theorems (C05/C11 cover them by correspondence)"],
+        "modules": ["PrioProofs.Props.C16", "PrioProofs.Props.C16Poplar"],
+        "rule": "constructors of Sum, Average, Histogram, MultihotCountVec, SumVec, L1BoundSum over Field64 and Field128 on the argument lattice {0,1,2,3,8,1000,2^32-2,2^32-1,2^32,2^63-1,2^63,usize::MAX-1,usize::MAX} (thorough: 26 values incl. random ones; full cube for the 3-parameter constructors) x integer bounds {0,1,2,3,255,256,p-2,p-1,p,p+1,MAX}; accepted small instances must prove and verify their extreme measurements; encode_measurement on in-range, boundary, out-of-range and wrong-length measurements; Prio3::new on (aggregators, proofs) incl. 0, 254, 255; Prio2::new on 24 (thorough 64) lengths up to usize::MAX; Prio3 verify_init / verifier_shares_to_message / verify_next on hand-built leader shares (measurement or proofs empty, short, long, one proof of many), missing or unexpected blinds and parts, shares, states and messages of an instance with the opposite joint-randomness use, aggregator ids up to usize::MAX, share counts 0..512+n incl. 256+n; thorough: instances beyond the transform limit (600000 buckets, chunk 1) through prove and verify_init; Prio2, Poplar1 (zero bits, wrong heights, levels beyond the tree, depth 40000) and DP constructors by oracle; non-trivial = all;",
+        "trusted": COMMON_TRUST + ["XOF expansion terminating and FLP query not panicking are hypotheses of the Prio3 no-panic theorems (decide is proved panic-free; C05/C11 cover query and the XOF by correspondence)"],
         "assumptions": ["allocation-proportional operations are exercised only below a memory budget (instances up to 2048 inputs, Poplar1 up to 40000 bits)", "Poplar1/Prio2 protocol operations and DP constructors: oracle only"],
     },
     "C01": {
-        "modules": ["PrioProofs.Props.C01"],
+        "modules": ["PrioProofs.Props.C01", "PrioProofs.Props.C01E2E"],
         "rule": "Prio3 over a recording XOF (every XOF invocation's key and output is recorded and the model recomputes the whole step from that table): Count, Sum at bit-width edges (incl. a 34-bit bound), Histogram with dividing / non-dividing / oversize chunks, SumVec, MultihotCountVec, L1BoundSum x (aggregators, proofs) in {(2,1),(3,1),(5,2),(2,3)}; every message passes through its wire codec; batches of 5 (thorough 24) valid measurements incl. the extremes, sharded, verified by all aggregators, aggregated and unsharded; non-trivial = all;",
         "trusted": COMMON_TRUST + ["TurboSHAKE128 is a parameter of the model (recorded table in the correspondence)"],
         "assumptions": ["Average's final float division is outside the model (the integer sum and count are compared)"],
     },
     "C02": {
-        "modules": ["PrioProofs.Props.C02"],
-        "rule": "Prio3 over a recording XOF (every XOF invocation's key and output is recorded and the model recomputes the whole step from that table): Count, Sum at bit-width edges (incl. a 34-bit bound), Histogram with dividing / non-dividing / oversize chunks, SumVec, MultihotCountVec, L1BoundSum x (aggregators, proofs) in {(2,1),(3,1),(5,2),(2,3)}; every message passes through its wire codec; alterations of every public-share seed, first/middle/last measurement and proof elements of the leader share, blinds, helper seeds, every aggregator's first/last verifier element and joint-randomness part, the verifier message, a missing and a duplicated share; model and code must agree on the step that fails; non-trivial = all;",
+        "modules": ["PrioProofs.Props.C02", "PrioProofs.Props.C02Tamper"],
+        "rule": "Prio3 over a recording XOF (every XOF invocation's key and output is recorded and the model recomputes the whole step from that table): Count, Sum at bit-width edges (incl. a 34-bit bound), Histogram with dividing / non-dividing / oversize chunks, SumVec, MultihotCountVec, L1BoundSum x (aggregators, proofs) in {(2,1),(3,1),(5,2),(2,3)}; every message passes through its wire codec; alterations of every public-share seed, first/middle/last measurement and proof elements of the leader share, blinds, helper seeds, every aggregator's first/last verifier element and joint-randomness part, the verifier message, a missing and a duplicated share; model and code must agree on the step that fails; malicious clients: the real Prio3 client code over a wrapper type with identity encoding shards vectors outside the type's language -- every entry a random bit except one (at every position, or first/second/middle/last two) that is solved from the type's linear relation (Histogram: sum = 1; MultihotCountVec: weight = claimed weight; L1BoundSum: norm = claimed norm) so that the only defect is one non-bit entry, and pairs of non-bit entries -- for Count, Sum, SumVec, Histogram, MultihotCountVec and L1BoundSum with chunk lengths that divide the encoded length, leave exactly one element, leave one short, or exceed it; every such report must be refused; non-trivial = all;",
         "trusted": COMMON_TRUST + ["TurboSHAKE128 is a parameter of the model (recorded table in the correspondence)"],
         "assumptions": ["the negligible-probability clause (random-oracle collisions, FLP soundness error) is not expressed; the oracle samples it"],
     },
     "C17": {
         "modules": ["PrioProofs.Props.C17"],
-        "rule": "Poplar1 (bit lengths 1-64): pairs of inputs sharded with identical randomness and nonce, input shares compared byte-wise, each shard a correspondence case; Prio3 over a recording XOF (every XOF invocation's key and output is recorded and the model recomputes the whole step from that table): Count, Sum at bit-width edges (incl. a 34-bit bound), Histogram with dividing / non-dividing / oversize chunks, SumVec, MultihotCountVec, L1BoundSum x (aggregators, proofs) in {(2,1),(3,1),(5,2),(2,3)}; every message passes through its wire codec; pairs of measurements sharded with identical randomness and nonce; byte-wise comparison of helper shares, blinds, joint-randomness parts and the leader-share difference; non-trivial = all;",
+        "rule": "Poplar1 (bit lengths 1-64): pairs of inputs sharded with identical randomness and nonce, input shares compared byte-wise, each shard a correspondence case; Prio3 over a recording XOF (every XOF invocation's key and output is recorded and the model recomputes the whole step from that table): Count, Sum at bit-width edges (incl. a 34-bit bound), Histogram with dividing / non-dividing / oversize chunks, SumVec, MultihotCountVec, L1BoundSum x (aggregators, proofs) in {(2,1),(3,1),(5,2),(2,3)}; every message passes through its wire codec; pairs of measurements sharded with identical randomness and nonce; byte-wise comparison of helper shares, blinds, joint-randomness parts and the leader-share difference; single-aggregator Prio3 instances (the leader share still has the encoding's length); non-trivial = all;",
         "trusted": COMMON_TRUST,
         "assumptions": [],
     },
     "C18": {
         "modules": ["PrioProofs.Props.C18"],
-        "rule": "Poplar1 (bit lengths 1-33, first and leaf level): context / nonce / key substituted at the leader, the helper or both, swapped and duplicated shares, every step a correspondence case; Prio3 over a recording XOF (every XOF invocation's key and output is recorded and the model recomputes the whole step from that table): Count, Sum at bit-width edges (incl. a 34-bit bound), Histogram with dividing / non-dividing / oversize chunks, SumVec, MultihotCountVec, L1BoundSum x (aggregators, proofs) in {(2,1),(3,1),(5,2),(2,3)}; every message passes through its wire codec; every single-aggregator and all-aggregator substitution of context, nonce and verification key, swapped helper shares and identifiers, another algorithm identifier; non-trivial = all;",
+        "rule": "Poplar1 (bit lengths 1-33, first and leaf level): context / nonce / key substituted at the leader, the helper or both, swapped and duplicated shares, every step a correspondence case; Prio3 over a recording XOF (every XOF invocation's key and output is recorded and the model recomputes the whole step from that table): Count, Sum at bit-width edges (incl. a 34-bit bound), Histogram with dividing / non-dividing / oversize chunks, SumVec, MultihotCountVec, L1BoundSum x (aggregators, proofs) in {(2,1),(3,1),(5,2),(2,3)}; every message passes through its wire codec; every single-aggregator and all-aggregator substitution of context, nonce and verification key, swapped helper shares and identifiers, another algorithm identifier; contexts of 0, 55, 66, 129, 167, 300 and 1000 bytes whose substitute differs in the last byte (Prio3 and Poplar1); Prio3 over XofHmacSha256Aes128 through the generic constructor (oracle only); recorder oracle over the whole run: two XOF invocations with different (seed, dst, binder) never give the same first 128 stream bits; non-trivial = all;",
         "trusted": COMMON_TRUST + ["rejection under a mismatch relies on the XOF behaving as a random oracle: the theorems show that every mismatched quantity enters a tag or binder injectively and that the nonce exception is exact; the correspondence and oracle check the outcomes"],
         "assumptions": [],
     },
     "C05": {
-        "modules": ["PrioProofs.Props.C05"],
+        "modules": ["PrioProofs.Props.C05", "PrioProofs.Props.C05Language", "PrioProofs.Props.Deployed"],
         "rule": "all circuits (Count, Sum/Average at bit-width edges, Histogram with dividing / non-dividing / oversize chunk lengths, SumVec, MultihotCountVec, L1BoundSum) x valid encodings and invalid vectors (non-bits, wrong weight, inconsistent norm, affine-only near-misses) x randomness (uniform, zeros, ones, repeats, roots of unity of the wire domain) x 1,2,3,5 shares with random and degenerate sharings x every wrong length; byte-exact proofs, verifier messages and decisions; non-trivial = all;",
         "trusted": COMMON_TRUST,
         "assumptions": ["soundness is sampled by the oracle (honestly proved invalid inputs and altered gadget-polynomial elements are rejected under uniform randomness); it is not expressed as a probability"],
@@ -92,10 +92,10 @@ PROPS = {
         "assumptions": [],
     },
     "C10": {
-        "modules": ["PrioProofs.Props.C10"],
+        "modules": ["PrioProofs.Props.C10", "PrioProofs.Props.Deployed"],
         "rule": "three NTT fields: every power-of-two size up to 2^9 (thorough 2^12): all basis vectors (sizes <= 32) or four of them, random vectors, shorter (zero-padded) inputs, with and without the next-order shift; inverse of each forward transform; root powers for every size; size/capacity violations; Lagrange evaluation at random points and exactly at the nodes; extension from every partial length; doubling; multiplication; monomial helpers; range-check polynomials; non-trivial = all;",
         "trusted": COMMON_TRUST,
-        "assumptions": ["the model transcribes the loops of ntt.rs/polynomial.rs over arrays; agreement with the code is by correspondence on a basis of the (linear) input space for every tested size"],
+        "assumptions": ["the model transcribes the loops of ntt.rs/polynomial.rs over arrays; agreement with the code is by correspondence on a basis of the (linear) input space for every tested size", "the DFT theorem is over an abstract commutative ring with a root chain; the deployed tables are checked against the chain by kernel evaluation in the Nat-mod-p model of C09"],
     },
     "C11": {
         "modules": ["PrioProofs.Props.C11"],
@@ -123,7 +123,7 @@ PROPS = {
         "assumptions": [],
     },
     "C09": {
-        "modules": ["PrioProofs.Props.C09"],
+        "modules": ["PrioProofs.Props.C09", "PrioProofs.Props.C09Inv"],
         "rule": "operand lattice (0,1,2,3,p-3..p-1,(p±1)/2,2^k,2^k±1,limb masks,R mod p) x itself, random and low-weight operands, every operand pair of the 8-bit instantiation; non-trivial = all (every case exercises the limb code);",
         "trusted": COMMON_TRUST + ["Field255 limb code (fiat-crypto) is outside this check"],
         "assumptions": ["the hook instantiations FP8/FP16S run the same generic code as FP32/FP64/FP128 (they are produced by the same macros)"],
